@@ -120,40 +120,59 @@ Ltac use_ih :=
     E : ieval _ _ _ ?a _ _ = Res _ _ _ |- _ => apply IH in E
   | IH : forall fr g o fr' g', ieval_args _ _ _ ?a fr g = Res o fr' g' -> extends g g',
     E : ieval_args _ _ _ ?a _ _ = Res _ _ _ |- _ => apply IH in E
+  | IH : forall v fr g o fr' g', ieval_conds _ _ _ v ?a fr g = Res o fr' g' -> extends g g',
+    E : ieval_conds _ _ _ _ ?a _ _ = Res _ _ _ |- _ => apply IH in E
+  | IH : forall v fr g o fr' g', ieval_arms _ _ _ v ?a fr g = Res o fr' g' -> extends g g',
+    E : ieval_arms _ _ _ _ ?a _ _ = Res _ _ _ |- _ => apply IH in E
   | E : cf _ _ _ = Some (_, _) |- _ => apply Hcf in E
   end.
 
+Ltac the_eq tac := match goal with E : _ = Res _ _ _ |- _ => tac E end.
+Ltac solve_eq := the_eq ltac:(fun E => repeat brk E); use_ih; fin_ext.
+
 Lemma ieval_extends_both :
-  (forall e fr g o fr' g', ieval cf funs fn e fr g = Res o fr' g' -> extends g g') /\
-  (forall a fr g o fr' g', ieval_args cf funs fn a fr g = Res o fr' g' -> extends g g').
+  (forall e, forall fr g o fr' g', ieval cf funs fn e fr g = Res o fr' g' -> extends g g') /\
+  (forall a, (forall fr g o fr' g', ieval_args cf funs fn a fr g = Res o fr' g' -> extends g g') /\
+             (forall v fr g o fr' g', ieval_conds cf funs fn v a fr g = Res o fr' g' -> extends g g')) /\
+  (forall m, forall v fr g o fr' g', ieval_arms cf funs fn v m fr g = Res o fr' g' -> extends g g').
 Proof.
-  apply expr_args_ind; intros.
-  - inversion H; subst. apply extends_refl.
-  - inversion H; subst. apply extends_refl.
+  apply expr_args_ind; intros;
+    try match goal with H : _ /\ _ |- _ => destruct H end.
+  - the_eq ltac:(fun E => inversion E); subst. apply extends_refl.
+  - the_eq ltac:(fun E => inversion E); subst. apply extends_refl.
   - (* EBin *)
-    rewrite ieval_bin in H1.
+    the_eq ltac:(fun E => rewrite ieval_bin in E).
     assert (S : forall r, islow funs fn cf o a b fr g = Res r fr' g' -> extends g g').
     { unfold islow. intros r S. repeat brk S; use_ih; fin_ext. }
     destruct o; try (eapply S; eassumption).
-    destruct (var_int_le fn a b fr g); [inversion H1; subst; apply extends_refl|eapply S; eassumption].
-  - rewrite ieval_not in H0. repeat brk H0; use_ih; fin_ext.
-  - rewrite ieval_and in H1. repeat brk H1; use_ih; fin_ext.
-  - rewrite ieval_or in H1. repeat brk H1; use_ih; fin_ext.
-  - rewrite ieval_assign in H0. repeat brk H0; use_ih; fin_ext.
+    destruct (var_int_le fn a b fr g); [the_eq ltac:(fun E => inversion E); subst; apply extends_refl|eapply S; eassumption].
+  - the_eq ltac:(fun E => rewrite ieval_not in E). solve_eq.
+  - the_eq ltac:(fun E => rewrite ieval_and in E). solve_eq.
+  - the_eq ltac:(fun E => rewrite ieval_or in E). solve_eq.
+  - the_eq ltac:(fun E => rewrite ieval_assign in E). solve_eq.
   - (* EPostInc *)
-    change (ieval cf funs fn (EPostInc x) fr g) with
+    the_eq ltac:(fun E => change (ieval cf funs fn (EPostInc x) fr g) with
       (let '(nv, ov) := incr_value (rd fn x fr g) in
-       let '(fr', g') := wr fn x nv fr g in Res (EV ov) fr' g') in H.
-    repeat brk H. fin_ext.
-  - rewrite ieval_arr in H0. repeat brk H0; use_ih; fin_ext.
-  - rewrite ieval_call in H0. repeat brk H0; use_ih; fin_ext.
-  - rewrite ieval_new in H0. repeat brk H0; use_ih; fin_ext.
-  - rewrite ieval_msg in H0. repeat brk H0; use_ih; fin_ext.
-  - rewrite ieval_class in H0. repeat brk H0; use_ih; fin_ext.
-  - rewrite ieval_same in H1. repeat brk H1; use_ih; fin_ext.
-  - inversion H; subst. apply extends_refl.
-  - inversion H; subst. apply extends_refl.
-  - rewrite ieval_args_cons in H1. repeat brk H1; use_ih; fin_ext.
+       let '(fr', g') := wr fn x nv fr g in Res (EV ov) fr' g') in E).
+    solve_eq.
+  - the_eq ltac:(fun E => rewrite ieval_arr in E). solve_eq.
+  - the_eq ltac:(fun E => rewrite ieval_call in E). solve_eq.
+  - the_eq ltac:(fun E => rewrite ieval_new in E). solve_eq.
+  - the_eq ltac:(fun E => rewrite ieval_msg in E). solve_eq.
+  - the_eq ltac:(fun E => rewrite ieval_class in E). solve_eq.
+  - the_eq ltac:(fun E => rewrite ieval_same in E). solve_eq.
+  - the_eq ltac:(fun E => inversion E); subst. apply extends_refl.
+  - (* EMatch *) the_eq ltac:(fun E => rewrite ieval_match in E). solve_eq.
+  - (* ANil *)
+    split; intros; [|the_eq ltac:(fun E => rewrite ieval_conds_nil in E)];
+      the_eq ltac:(fun E => inversion E); subst; apply extends_refl.
+  - (* ACons *)
+    split; intros.
+    + the_eq ltac:(fun E => rewrite ieval_args_cons in E). solve_eq.
+    + the_eq ltac:(fun E => rewrite ieval_conds_cons in E). solve_eq.
+  - (* MNil *) the_eq ltac:(fun E => rewrite ieval_arms_nil in E; inversion E); subst. apply extends_refl.
+  - (* MDefault *) the_eq ltac:(fun E => rewrite ieval_arms_default in E). use_ih. assumption.
+  - (* MCons *) the_eq ltac:(fun E => rewrite ieval_arms_cons in E). solve_eq.
 Qed.
 End Events.
 
@@ -164,7 +183,7 @@ Variable cf : callfn.
 Hypothesis Hcf : forall f vs g o g', cf f vs g = Some (o, g') -> extends g g'.
 
 Lemma ieval_extends e fr g o fr' g' : ieval cf funs fn e fr g = Res o fr' g' -> extends g g'.
-Proof. apply (ieval_extends_both funs fn cf Hcf). Qed.
+Proof. apply (proj1 (ieval_extends_both funs fn cf Hcf)). Qed.
 Lemma icond_extends c fr g o fr' g' : icond cf funs fn c fr g = Res o fr' g' -> extends g g'.
 Proof.
   unfold icond. intros H. destruct (ieval cf funs fn c fr g) as [|[v|x] f1 g1] eqn:E; try discriminate;
